@@ -20,6 +20,23 @@ fn unsupported_type(
     )
 }
 
+/// A variable used as an input object field or a list item must be usable at that position.
+/// Returns true for values that are not (defined) variables.
+fn nested_variable_usage_allowed(
+    value: &ast::Value,
+    location_ty: &ast::Type,
+    has_location_default_value: bool,
+    var_defs: &[Node<ast::VariableDefinition>],
+) -> bool {
+    let ast::Value::Variable(var_name) = value else {
+        return true;
+    };
+    let Some(var_def) = var_defs.iter().find(|v| v.name == *var_name) else {
+        return true;
+    };
+    super::variable::is_variable_usage_allowed(var_def, location_ty, has_location_default_value)
+}
+
 pub(crate) fn validate_values(
     diagnostics: &mut DiagnosticList,
     schema: &crate::Schema,
@@ -192,6 +209,10 @@ pub(crate) fn value_of_correct_type(
                 let item_type = ty.same_location(ty.item_type().clone());
                 if type_definition.is_input_type() {
                     for v in li {
+                        if !nested_variable_usage_allowed(v, &item_type, false, var_defs) {
+                            unsupported_type(diagnostics, v, &item_type);
+                            continue;
+                        }
                         value_of_correct_type(diagnostics, schema, &item_type, v, var_defs);
                     }
                 } else {
@@ -263,6 +284,11 @@ pub(crate) fn value_of_correct_type(
                     let used_val = obj.iter().find(|(obj_name, ..)| obj_name == input_name);
 
                     if let Some((_, v)) = used_val {
+                        if !nested_variable_usage_allowed(v, ty, f.default_value.is_some(), var_defs)
+                        {
+                            unsupported_type(diagnostics, v, ty);
+                            return;
+                        }
                         value_of_correct_type(diagnostics, schema, ty, v, var_defs);
                     }
                 })
